@@ -48,7 +48,7 @@ claim("C15", "exhaustive bounded enumeration of upgrade/migrate sequences + full
       "All {upgrade,migrate}x{owner,former owner,stranger,nobody} sequences to length 3 (quick) / 4 (thorough) on the five production contracts and a derive-macro probe, with and without ownership transfer; the complete Upgrader matrix (target x requested version x authorisation coverage x migration data); random sequences to length 8. Failure atomicity by ledger-snapshot equality; the migration flag is read directly as a cross-check.",
       "upgrades use the empty-Wasm hash so that the current-source native entry points stay in place (no wasm32 toolchain); the committed dummy.wasm provides a real code change", "DESIGN.md §3 C15")
 claim("C16", "exhaustive app x deviation matrix + property-based deliveries, effect/snapshot oracle",
-      "Both apps (the shipped example and a minimal app using the interface's helper) x nine approval situations enumerated; proptest samples deliveries (strings incl. empty, payloads to 600 bytes). Effect and gateway status change iff a matching unexecuted approval exists; otherwise the delivery fails with the ledger identical; second delivery always refused.",
+      "Both apps (the shipped example and a minimal app using the interface's helper) x eleven approval situations enumerated; proptest samples deliveries (strings incl. empty, payloads to 600 bytes). Effect and gateway status change iff a matching unexecuted approval exists; otherwise the delivery fails with the ledger identical; second delivery always refused.",
       "approvals carry honest proofs", "DESIGN.md §3 C16")
 claim("C17", "stateful property-based testing (proptest histories) against a set model with a recording probe target",
       "Random histories of add/remove/transfer-ownership/execute with four authoriser classes each; membership swept after every step; forwarded calls compared (function, arguments, return value) with the probe target's own log; failing targets and refused calls must leave the ledger identical.",
